@@ -238,10 +238,10 @@ QUERIES = [
      "bound": "chain of 3 targets; existence of each output and the earlier job state of A and B (4 values quick / 6 thorough) symbolic, and - in the --endpoints shards - of the endpoint C (none / failed / cancelled); filter combination per shard: -s subsets %s x patterns %s x --endpoints x format {default, summary}: 8 combinations (quick), all 48 (thorough)" % (SSETS, PATS)},
     {"name": "Q5c", "fn": q5c,
      "shards": {"quick": [dict(d, ja=k) for d in ({"be": "slurm", "shape": "chain3"}, {"be": "local", "shape": "fork3"}) for k in range(6)] + [{"be": "slurm", "shape": "chain3", "hashing": True, "ja": k} for k in (0, 4)] + [{"be": "slurm", "shape": "chain3", "ja": 0, "symtimes": True}]
-                         + [{"be": "slurm", "shape": "chain3", "ja": 0, "sel": ["Zzz*"]}, {"be": "slurm", "shape": "chain3", "ja": 4, "sel": ["B"]}, {"be": "slurm", "shape": "fork3", "ja": 3, "sel": ["B"]}],
-                "thorough": [{"be": "slurm", "shape": sp, "ja": k, "sel": sl} for sp in ("chain3", "fork3") for k in range(6) for sl in (["Zzz*"], ["B"], ["A", "C"])] + [{"be": b, "shape": s, "hashing": h, "ja": k} for b in ("slurm", "sge", "lsf", "local") for s in ("chain3", "fork3") for h in (False, True) for k in range(6)]
+                         + [{"be": "slurm", "shape": "chain3", "ja": 0, "sel": ["Zzz*"]}, {"be": "slurm", "shape": "chain3", "ja": 4, "sel": ["B"]}, {"be": "slurm", "shape": "fork3", "ja": 3, "sel": ["B"]}, {"be": "slurm", "shape": "chain3", "ja": 0, "sel": ["A", "C*"]}, {"be": "slurm", "shape": "fork3", "ja": 0, "sel": ["B", "[C]"]}],
+                "thorough": [{"be": "slurm", "shape": sp, "ja": k, "sel": sl} for sp in ("chain3", "fork3") for k in range(6) for sl in (["Zzz*"], ["B"], ["A", "C"], ["A", "C*"])] + [{"be": b, "shape": s, "hashing": h, "ja": k} for b in ("slurm", "sge", "lsf", "local") for s in ("chain3", "fork3") for h in (False, True) for k in range(6)]
                             + [{"be": "slurm", "shape": "chain3", "ja": k, "symtimes": True} for k in (0, 3, 4)]},
      "timeout": {"quick": 1500, "thorough": 3000},
      "bound": "3 targets (chain, fork); existence of each output, earlier job of A and B in one of 6 abstract states, spec hashing off / on with 3 record situations; a stale log of a removed target present; "
-              "sequence status -> run --dry-run -> (purity) -> run, in extra shards with a target selection (a name, two names, a pattern matching nothing) given to all three; backends slurm + local (quick), all four (thorough); one shard (quick) / three (thorough) with symbolic modification times (ints in 0..100) of the three outputs on Slurm"},
+              "sequence status -> run --dry-run -> (purity) -> run, in extra shards with a target selection (a name, two names, a name together with a pattern, a pattern matching nothing) given to all three; backends slurm + local (quick), all four (thorough); one shard (quick) / three (thorough) with symbolic modification times (ints in 0..100) of the three outputs on Slurm"},
 ]
